@@ -273,6 +273,8 @@ type evSet struct {
 	overwritten bool // a later claim with the same key replaced this one
 	tried       bool
 	paid        int
+	attempts    int
+	chal        bool // the leaves are challenge proofs (ChallengeProofInvalidData), not relay proofs
 }
 
 func (e *evSet) header() pc.SessionHeader {
@@ -315,6 +317,39 @@ func (s *sim) mkEvidence(id int, node, app chain.Key, chainID string, S int64, e
 	s.entropy++
 	root, sorted := pc.GenerateRoot(S, ps)
 	return &evSet{id: id, node: node, app: app, chainID: chainID, S: S, et: et, proofs: sorted, root: root, total: int64(nLeaves), dup: dup}
+}
+
+// mkChallengeEvidence: every leaf is a ChallengeProofInvalidData reported by `node`: two session nodes
+// answered alike, a third (the minority, whose stake the proof burns) differently; each response is
+// signed by its servicer, each relay proof by the client.
+func (s *sim) mkChallengeEvidence(id int, node, app chain.Key, chainID string, S int64, et pc.EvidenceType, nLeaves int) *evSet {
+	aat := mkAAT(app, s.client)
+	var others []chain.Key
+	for _, k := range s.nodes {
+		if !k.Addr.Equals(node.Addr) {
+			others = append(others, k)
+		}
+	}
+	mkResp := func(n chain.Key, entropy int64, payload string) pc.RelayResponse {
+		rr := pc.RelayResponse{Response: payload, Proof: mkRelayProof(aat, s.client, n, chainID, S, entropy)}
+		sig, err := n.Priv.Sign(rr.Hash())
+		if err != nil {
+			panic(err)
+		}
+		rr.Signature = hex.EncodeToString(sig)
+		return rr
+	}
+	var ps []pc.Proof
+	for i := 0; i < nLeaves; i++ {
+		s.entropy++
+		o := s.r.Intn(len(others))
+		a, b, c := others[o], others[(o+1)%len(others)], others[(o+2)%len(others)]
+		ps = append(ps, pc.ChallengeProofInvalidData{
+			MajorityResponses: []pc.RelayResponse{mkResp(a, s.entropy, `{"r":1}`), mkResp(b, s.entropy, `{"r":1}`)},
+			MinorityResponse:  mkResp(c, s.entropy, `{"r":2}`), ReporterAddress: node.Addr})
+	}
+	root, sorted := pc.GenerateRoot(S, ps)
+	return &evSet{id: id, node: node, app: app, chainID: chainID, S: S, et: et, proofs: sorted, root: root, total: int64(nLeaves), chal: true}
 }
 
 func levelsFor(total int64) int { return int(math.Ceil(math.Log2(float64(total)))) }
@@ -431,7 +466,11 @@ func (s *sim) proofOracle(ctx sdk.Context, m pc.MsgProof, dup, anteOK bool) stri
 				leaf = errCode(m.GetLeaf().Validate(app.GetChains(), int(pk.SessionNodeCount(sessCtx)), claim.SessionHeader.SessionBlockHeight))
 			}
 		}
-		rw = s.rewardOracle(ctx, nk, claim)
+		relays := claim.TotalProofs
+		if _, isChal := m.GetLeaf().(pc.ChallengeProofInvalidData); isChal {
+			relays = claim.TotalProofs / 100 // ExecuteProof: "small reward for the challenge proof invalid data"
+		}
+		rw = s.rewardOracle(ctx, nk, claim, relays)
 	}
 	fmt.Fprintf(&sb, " found=%d lvl=%d rootm=%d sctx=%d idxavail=%d idx=%d mk=%s app=%d leafv=%s rw=%s", b01(found), b01(lvl), b01(rootm), b01(sctx),
 		b01(idxAvail), b01(idxOK), mk, b01(appF), leaf, rw)
@@ -440,12 +479,12 @@ func (s *sim) proofOracle(ctx sdk.Context, m pc.MsgProof, dup, anteOK bool) stri
 
 // rewardOracle: who would be minted how much if the relay reward for this claim were paid now
 // (RewardForRelaysPerChain's distribution, recomputed with the exported pieces; the arithmetic is C26/C27's subject).
-func (s *sim) rewardOracle(ctx sdk.Context, nk nodesKeeper.Keeper, claim pc.MsgClaim) string {
+func (s *sim) rewardOracle(ctx sdk.Context, nk nodesKeeper.Keeper, claim pc.MsgClaim, relays int64) string {
 	val, found := nk.GetValidator(ctx, claim.FromAddress)
 	if !found {
 		return "-"
 	}
-	toNode, toFee := nk.CalculateRelayReward(ctx, claim.SessionHeader.Chain, sdk.NewInt(claim.TotalProofs), val.GetTokens())
+	toNode, toFee := nk.CalculateRelayReward(ctx, claim.SessionHeader.Chain, sdk.NewInt(relays), val.GetTokens())
 	acc := map[string]sdk.BigInt{}
 	add := func(a sdk.Address, v sdk.BigInt) {
 		nm := s.name(a.String())
